@@ -517,6 +517,9 @@ def run(ctx):
                 ctx.fail("C10:minus-vector-lambda-minus-one", f"[0-] weight {code_m[k]} with λ₋₁={lm1}, max={max(ops)}: expected {want}",
                          {"ops": ops, "lambda_minus_one": lm1, "first_interface": b})
     move_seed_part(ctx, Path, System, tis, have_model)
+    # extension pass: scan trace, segment frames, move strings, all calc_cv_vector arguments, high_acc_swap, call sites
+    from props import c10_ext
+    c10_ext.run_ext(ctx, Path, System, tis, have_model, code_move_seed)
     # the weight functions only read the path they are given
     for fn, what in PURITY:
         ctx.fail("C10:weight-function-modifies-its-input", f"{fn} changed field(s) {what} of the path/arguments it was given",
@@ -536,6 +539,10 @@ def replay(ctx, obj):
     """re-run one recorded failing input on the current implementation"""
     Path, System, tis = _imports()
     r = obj.get("replay", {})
+    from props import c10_ext
+    rc = c10_ext.replay_ext(r, Path, System, tis)
+    if rc is not None:
+        return rc
     if r.get("fn") == "wire_fencing":
         c = code_move_seed(tis, Path, System, r["intfs"], r["cap"], r["ops"], float(Fraction(r["xi"])))
         capv = r["intfs"][2] if r["cap"] is None else r["cap"]
